@@ -33,3 +33,17 @@ theorem tryCatchCls_err_ok {α} (x : Except Err α) (c : Err → Bool) (e : Err)
 @[simp] theorem ensure_eq_ok (c : Bool) (e : Err) (u : Unit) : ensure c e = .ok u ↔ c = true := ensure_ok_iff c e u
 
 end Jose
+
+namespace Jose
+
+theorem forM_eq_ok {α} (l : List α) (f : α → Except Err Unit) (u : Unit) :
+    l.forM f = .ok u ↔ ∀ x ∈ l, f x = .ok () := by
+  induction l with
+  | nil => simp [List.forM, pure, Except.pure]
+  | cons a as ih =>
+    simp only [List.forM, List.mem_cons, forall_eq_or_imp]
+    cases hfa : f a with
+    | error e => simp [bind, Except.bind]
+    | ok v => simp [bind, Except.bind]; exact ih
+
+end Jose
